@@ -19,6 +19,20 @@ from lekkersim import logger
 from lekkersim.utils import map_args
 from lekkersim.model import SolvedModel
 
+# --- verification hook (inactive unless LEKKERSIM_VERIF=1 and a callback is installed) ---
+import os as _os
+
+_verif_merge_hook = None
+
+
+def _verif_pick(source_st, tar_st, st_list, loop):
+    """Lets a verification harness observe / override the pair merged next by solve()."""
+    if _os.environ.get("LEKKERSIM_VERIF") == "1" and _verif_merge_hook is not None:
+        res = _verif_merge_hook(source_st, tar_st, list(st_list), loop)
+        if res is not None:
+            return res
+    return source_st, tar_st
+
 
 class Solver:
     """Class Solver
@@ -399,6 +413,7 @@ class Solver:
                 if st.gone_to in st_list:
                     tar_st = st.gone_to
                     break
+            source_st, tar_st = _verif_pick(source_st, tar_st, st_list, "main")
             new_st = source_st.join(tar_st)
             st_list.remove(source_st)
             st_list.remove(tar_st)
@@ -415,6 +430,7 @@ class Solver:
                     if st.gone_to in st_list:
                         tar_st = st.gone_to
                         break
+                source_st, tar_st = _verif_pick(source_st, tar_st, st_list, "monitor")
                 new_st = source_st.join(tar_st)
                 st_list.remove(source_st)
                 st_list.remove(tar_st)
